@@ -363,6 +363,73 @@ def run(ck):
             ck.ob('C15.schema', 'C15.schema/Announce/field#%d/%s' % (k, le or ld), ok, pa.loc(d['node']),
                   'Announce token %d (%s): encoder writes %s, decoder stores into %s' % (k, t, le or '<expr>', ld or '<expr>'))
 
+    # ---- completeness of the length guards: a rejection implies the input really is too short ------------------
+    def lin_terms(fn, n, depth=0):
+        """(constant, sorted symbolic names) of an expression built from +, constants and locals; None otherwise."""
+        n = fn.strip(n)
+        nd = fn.nodes[n]
+        cv = const_value(fn, n)
+        if cv is not None:
+            return cv, []
+        if depth > 16:
+            return None
+        if nd['k'] == 'BinaryOperator' and nd.get('op') == '+':
+            a, b = (lin_terms(fn, x, depth + 1) for x in fn.kids(n))
+            if a is None or b is None:
+                return None
+            return a[0] + b[0], sorted(a[1] + b[1])
+        if nd['k'] == 'DeclRefExpr' and nd.get('dk') == 'Var':
+            from sa.paths import unique_init
+            init = unique_init(fn, nd['d'], n)
+            if init is not None:
+                r = lin_terms(fn, init, depth + 1)
+                if r is not None and not (nd['n'].endswith('_len') or nd['n'] == 'extra_bytes'):
+                    return r
+            return 0, [nd['n']]
+        if nd['k'] == 'DeclRefExpr':
+            return 0, [nd['n']]
+        return None
+
+    def guard_sites(fn, root, rem_name='remaining'):
+        out = []
+        for i in fn.walk(root):
+            nd = fn.nodes[i]
+            if nd['k'] != 'IfStmt':
+                continue
+            then = nd.get('then')
+            if not any(fn.nodes[j]['k'] == 'ReturnStmt' and 'nullopt' in fn.text(j) for j in fn.walk(then)):
+                continue
+            c = comparison(fn, nd['cond'])
+            if not c:
+                continue
+            op, a, b = c
+            if fn.nodes[fn.strip(b)].get('n') == rem_name:
+                op, a, b = {'<': '>', '>': '<', '<=': '>=', '>=': '<=', '==': '==', '!=': '!='}[op], b, a
+            if fn.nodes[fn.strip(a)].get('n') != rem_name:
+                continue
+            out.append((i, op, lin_terms(fn, b)))
+        return out
+    ALLOWED_SYMS = {'endpoint_len', 'manifest_len', 'assignments_len', 'extra_bytes', 'data_len'}
+    nguards = 0
+    for fn, root, fixed_total, tag in [(pa, pa.body, 16 + 64, 'Announce')] + \
+            [(dp, cn['sub'], None, [dp.nodes[j]['n'] for j in dp.walk(cn['lhs']) if dp.nodes[j].get('dk') == 'EnumConstant'][0]) for _ci, cn in cases]:
+        if tag != 'Announce':
+            if tag + 'Payload' not in enc_by_type:
+                continue
+            fixed_total = sum({'1': 1, '4': 4, '8': 8, 'R32': 32}.get(t, 0) for t, _l, _n in enc_by_type[tag + 'Payload'][1])
+        for i, op, lt in guard_sites(fn, root):
+            nguards += 1
+            ok = op in ('<', '<=') and lt is not None
+            if ok:
+                # `cursor` has consumed at most the 16 header bytes where it appears in a guard
+                const = lt[0] + (1 if op == '<=' else 0) + 16 * lt[1].count('cursor')
+                ok = const <= fixed_total and set(lt[1]) <= ALLOWED_SYMS | {'cursor'} and lt[1].count('cursor') <= 1 and \
+                    all(lt[1].count(x) == 1 for x in set(lt[1]))
+            ck.ob('C15.guard', 'C15.guard/%s#%d' % (tag, i), ok, fn.loc(i),
+                  '%s: a message is rejected for length only when remaining < (fixed part <= %d) + declared lengths, so every encoding '
+                  'the encoder can produce is accepted (found: remaining %s %s)' % (tag, fixed_total, op, lt))
+    ck.floor('C15.guard', 'length guards in the decoders', nguards, 7)
+
     # ---- R-SIB version threshold for the PoW nonce ------------------------------------------------
     thresholds = {}
     af = enc_by_type['AnnouncePayload'][0]
